@@ -952,13 +952,16 @@ def evaluate__analyze_string(self: XPathFunction, context: ta.ContextType = None
     pattern = self.get_argument(context, 1, required=True, cls=str)
     flags = 0
     if len(self) > 2:
-        for c in self.get_argument(context, 2, required=True, cls=str):
+        flag_chars: str = self.get_argument(context, 2, required=True, cls=str)
+        for c in flag_chars:
             if c in 'smix':
                 flags |= getattr(re, c.upper())
             elif c == 'q' and self.parser.version > '2':
                 pattern = re.escape(pattern)
             else:
                 raise self.error('FORX0001', "Invalid regular expression flag %r" % c)
+        if 'q' in flag_chars:
+            flags &= ~re.X  # no effect on a literal pattern
 
     try:
         python_pattern = translate_pattern(pattern, flags, self.parser.xsd_version)
